@@ -47,6 +47,44 @@ def bswap(v, bits):
     return int.from_bytes(v.to_bytes(bits // 8, 'little'), 'big')
 
 
+def wait_probe(chk, d, quick):
+    """The implicit atomic load of memory.atomic.wait32/64 (futex library) under both byte-order configurations."""
+    futex = [os.path.join(env.REPO, 'futex', f) for f in ('futex.c', 'list.c', 'map.c')]
+    outs = {}
+    for tag, defs in (('le', []), ('be', ['-DWASM_ENDIAN=1'])):
+        exe = os.path.join(d, 'waitprobe-' + tag)
+        r = env.run(['gcc', '-O1', '-g', '-w', '-fsanitize=address', '-DWASM_THREADS_PTHREADS'] + defs + ['-I', e2e.base_include(), '-I', os.path.join(env.REPO, 'futex'),
+                     os.path.join(env.VERIF, 'harness', 'endian_wait_probe.c')] + futex + ['-o', exe, '-lpthread', '-lm'], timeout=300)
+        if r.rc != 0:
+            chk.violation('C19:compile:wait-probe:%s' % tag, 'wait probe does not build (%s): %s' % (tag, r.err[-1500:]))
+            return
+        n = 60 if quick else 600
+        runs = env.pmap(lambda i: env.run([exe, str(env.SEED * 100 + i), str(n)], env=env.SAN_ENV, timeout=300), range(4 if quick else 16))
+        outs[tag] = runs
+    for i, (rl, rb) in enumerate(zip(outs['le'], outs['be'])):
+        files = {'cmd.txt': 'endian_wait_probe %d (le and be builds)' % (env.SEED * 100 + i), 'le.txt': rl.out[-100000:], 'be.txt': rb.out[-100000:], 'stderr.txt': (rl.err + rb.err)[-3000:]}
+        if rl.rc != 0 or rb.rc != 0 or 'DONE' not in rl.out or 'DONE' not in rb.out:
+            chk.violation('C19:wait-probe-crash', 'wait probe failed: le rc %s be rc %s: %s' % (rl.rc, rb.rc, (rl.err + rb.err)[-400:]), files)
+            continue
+        if 'ENDIAN 0' not in rl.out or 'ENDIAN 1' not in rb.out:
+            chk.inconclusive('wait probe builds did not select the expected byte orders')
+            continue
+        for tag, r in (('le', rl), ('be', rb)):
+            for l in r.out.splitlines():
+                if not l.startswith('W '):
+                    continue
+                _, w, v, r0, r1, r2, pal = l.split()
+                chk.ev()
+                chk.distinct(('wait', w, v, tag))
+                chk.observe('wait_cases_' + tag)
+                want = ('2', '2' if pal == '1' else '1', '1')
+                if (r0, r1, r2) != want:
+                    which = 'equal-cell-not-blocking' if r0 != '2' else ('reversed-expected-treated-as-equal' if r1 != want[1] else 'different-expected-blocking')
+                    chk.violation('C19:wait%s:%s' % (w, which), 'byte-order configuration %s: wait%s on a cell holding %#x returned %s/%s/%s for expected = value / byte-reversed value / value with one bit flipped; must be %s/%s/%s' % (
+                        tag, w, int(v, 16), r0, r1, r2, want[0], want[1], want[2]), files)
+                    break
+
+
 def main(chk):
     quick = chk.tier == 'quick'
     d = env.subdir('c19')
@@ -126,6 +164,7 @@ def main(chk):
             if b_be['f32'] != bswap(x & 0xffffffff, 32) or b_be['f64'] != bswap(x, 64):
                 chk.violation('C19:bufferRead:big-endian', 'immediates reader on the forced-BE build returns f32=%#x f64=%#x, expected the big-endian reading %#x / %#x' % (
                     b_be['f32'], b_be['f64'], bswap(x & 0xffffffff, 32), bswap(x, 64)), files)
+    wait_probe(chk, d, quick)
     chk.observe('flavours_probed', 14 + 9 + 14 + 42 + 7, 'set')
     chk.sample({'case': 'i64_atomic_rmw16_add_u on window X (BE build) vs on R(X) (LE build): same return value, after-windows related by one 2-byte reversal'})
     # ---- module level: translated histories must give the same call results on both builds (thorough, cheap enough for quick too)
